@@ -177,6 +177,13 @@ def run(ctx):
             ra, dec = np.atleast_1d(ra).astype(float), np.atleast_1d(dec).astype(float)
             if rng.random() < 0.3:
                 ra[rng.randrange(n)] = np.nan
+            if kind == "aligned" and n > 2 and rng.random() < 0.5:
+                # world points in the far hemisphere (no pixel exists; the fitted starting guess is not finite there): they must be
+                # reported like any other unsolved entry
+                with np.errstate(all="ignore"):
+                    rc, dc = (float(v) for v in w(float(np.mean(box[0])), float(np.mean(box[1])), with_bounding_box=False))
+                for j, (fr_, fd_) in zip(rng.sample(range(n), 2), (((rc + 180.0) % 360.0, -dc), ((rc + 110.0) % 360.0, 0.0))):
+                    ra[j], dec[j], x[j], y[j] = fr_, fd_, np.nan, np.nan
             modes = [(a, d) for a in (True, False) for d in (True, False)]
             for adaptive, detect in modes:
                 for maxiter in ((1, 3, 50) if ctx.quick else (1, 2, 3, 5, 8, 20, 50)):
